@@ -5,19 +5,21 @@ proof          lean/SoxrModel/Properties/C16.lean over the control skeleton lean
                 snap, overshoot bound, immediate change and "then stays" for every state (request_settles; the
                 "no unfinished slew" hypothesis went with the repair of F13), stage switch rescaling / time continuity,
                 the repaired shift equals the model's (F14), frame count on the clock, CR refusal, fade alignment:
-                negation proved with a witness (F35) + the part that holds (down-switch fades).
+                occupancy0 aligned as a loop invariant, down-switch fades aligned (F35 repaired; the negation on the
+                pre-repair loop kept as a historical witness).
 correspondence  random ratio trajectories (max ratio 0.5…64, slews 0…4000, changes in mid-slew incl. immediate ones,
                 random blocks, flush) through the real engine (harness/vr/trace.c, asserts on) and through the compiled
                 model soxr_vr: every field of rate_t and every FIFO occupancy after every call, plus the decision of
-                soxr_set_io_ratio.  Where the model says the two cross-faded streams get out of step (ghost nmis, F35) the
-                asserts-on run is cut before that call, that call must abort on `odone == odone2`, and the NDEBUG build
-                is compared through it.
+                soxr_set_io_ratio; plus the structured family in which F35 was found (jump up at once, fast slew down,
+                long calls).  Should the model ever say that the two cross-faded streams get out of step (ghost nmis; it
+                did before the repair of F35) the asserts-on run is cut before that call, that call must abort on
+                `odone == odone2`, and the NDEBUG build is compared through it.
 falsifier       on the real code only: integer oracles of the property on the exported state (target reached and kept,
                 linear slew, increment rounding); sine-fit residual >= 80 dB and N/ratio within two frames at constant
                 ratios; ramp read-back (trajectory r(t), time continuity) and second-difference bound (no discontinuity)
                 over trajectories crossing every octave both ways; CR engines refuse; request-size schedules (F12);
                 ASan/UBSan build with C99 shift rules (F14 stays repaired); the Lean witnesses of F13 (must end at the
-                requested ratio) and of F35 replayed.
+                requested ratio) and of F35 (must run through the asserts-on build, streams aligned) replayed.
 """
 import json, math, os, tempfile, glob, hashlib
 from concurrent.futures import ThreadPoolExecutor
@@ -126,12 +128,12 @@ def deep_backwards(mres, margin=8):
     return None
 
 
-def one_trajectory(exe, seed, nops, exe_rel=None):
+def one_trajectory(exe, seed, nops, exe_rel=None, gen=None):
     """exe: the asserts-on build.  Where the model predicts that the two cross-faded streams get out of step (F35) that build
     aborts: it is run up to that call only, then once more including it (must abort with exactly that assertion), and the
     NDEBUG build exe_rel runs the whole trajectory (every field compared through and after the misalignment)."""
     rng = common.Rng(seed)
-    mx, ops = V.gen_traj(rng, nops)
+    mx, ops = gen(rng) if gen else V.gen_traj(rng, nops)
     all_ops = ops
     mo, mres = V.model_groups(mx, ops)
     info = V.scan_model(ops, mres)
@@ -214,8 +216,12 @@ def oracle_fails(exe, ops, kind):
 def correspondence(ctx, exe, exe_rel, n_traj, nops, fails):
     """Returns (F13-class oracle hits, F35 reproductions)."""
     seeds = [ctx.rng.next() for _ in range(n_traj)]
+    fam = [ctx.rng.next() for _ in range(n_traj // 2)]
     with ThreadPoolExecutor(common.NCPU) as ex:
         results = list(ex.map(lambda sd: one_trajectory(exe, sd, nops, exe_rel), seeds))
+        results += list(ex.map(lambda sd: one_trajectory(exe, sd, nops, exe_rel, f35_family), fam))
+    ctx.count("f35_family_trajectories", len(fam))
+    ctx.count("f35_family_up_and_down_switch_runs", sum(1 for r in results[len(seeds):] if r["info"]["nsw"] >= 3))
     calls = 0
     f13_hits, f35_hits = [], []
     for r in results:
@@ -233,13 +239,16 @@ def correspondence(ctx, exe, exe_rel, n_traj, nops, fails):
             ctx.count("traj_with_fade_misalignment_predicted")
         ctx.count("first_request_with_slew_dropped", r["dropped"])
         if r["info"]["wild"] is not None and (r["info"]["mis"] is None or r["info"]["wild"] < r["info"]["mis"]):
-            fails.append(dict(kind="backwards", what="the model's read position runs backwards before any fade misalignment (only F35 "
-                              "is known to cause that)", ops=r["ops"], seed=r["seed"]))
+            fails.append(dict(kind="backwards", what="the model's read position runs backwards (before any fade misalignment): nothing "
+                              "on the current tree is known to cause that", ops=r["ops"], seed=r["seed"]))
         if r["crash"] or r["diff"]:
             fails.append(dict(kind="correspondence", what=(r["crash"] or "") + (" | " if r["crash"] and r["diff"] else "") +
                               (r["diff"][1] if r["diff"] else ""), ops=r["ops"], seed=r["seed"]))
         if r["f35"]:
             f35_hits.append("random trajectory (seed %d) %s" % (r["seed"], r["f35"]))
+        if r["crash"] and ASSERT_F35 in r["crash"]:
+            f35_hits.append("random trajectory (seed %d): the asserts-on build aborts where the model counts no misaligned chunk: %s" % (
+                r["seed"], r["crash"][-160:]))
         if r["f35_missing"]:
             fails.append(dict(kind="correspondence", what=r["f35_missing"], ops=r["ops"], seed=r["seed"]))
         if r["rel_diff"]:
@@ -637,39 +646,56 @@ def witness_stage(ctx, exe, fails, known):
 
 
 def witness_f35_stage(ctx, exe_dbg, exe_rel, fails, known):
-    """The Lean witness of fade_alignment_fails on the real code: the model counts one chunk with odone != odone2 in the
-    last call; the asserts-on build must abort there on exactly that assertion, and the NDEBUG build must agree with the
-    model on every field through that call (fade-out clock negative afterwards).  Returns reproductions."""
+    """The call sequence of the F35 witness (Properties/C16.lean opsF35) on the real code.  Since the repair the model says
+    that every chunk of it is aligned (witnessF35_aligned): the asserts-on build must run through and both builds must
+    equal the model on every field.  Where the model counts a misaligned chunk (a model of an unrepaired tree) the
+    asserts-on build must abort there on exactly that assertion.  Returns F35 reproductions (assertion failures)."""
     ops = WITNESS_F35
     mo, mres = V.model_groups(8.0, ops)
     info = V.scan_model(ops, mres)
     ctx.count("evaluations", 2)
-    last = V.State(mres[-1][-1]) if mres and mres[-1] else None
-    if info["mis"] != len(ops) - 1 or last is None or last.mis != 1 or last.fo[0] >= 0:
-        fails.append(dict(kind="correspondence", what="the compiled model does not reproduce Properties/C16.lean fade_alignment_fails on "
-                          "opsF35 (nmis = 1 in the last call, fade-out clock negative): driver and theorem file out of step", ops=ops))
-        return []
     rc, lines, err = V.run_harness(exe_rel, ops)
     ro, rr, _ = V.split_real(lines)
     d = V.compare(ops, mo, mres, ro, rr)
     if rc or d:
         fails.append(dict(kind="correspondence", what="F35 witness, NDEBUG build: %s %s" % (err[-200:], d[1] if d else ""), ops=ops))
     rc1, lines1, err1 = V.run_harness(exe_dbg, ops)
-    n_ans = len(V.split_real(lines1)[1])
-    n_before = sum(len(g) for g in mo[:-1])
-    if rc1 and ASSERT_F35 in err1 and n_ans == n_before:
-        return ["witness opsF35 (0.25 -> 6 at once -> slew to 1 over 800 frames, then one call of 1400 frames: up-switch, fade, "
-                "down-switch in one vr_process): %s; NDEBUG build: streams one sample apart, fadeout.at = %d" % (
-                    [l for l in err1.splitlines() if "Assertion" in l][-1].split(": ", 1)[-1][-100:], last.fo[0])]
-    if rc1:
-        fails.append(dict(kind="correspondence", what="F35 witness, asserts-on build: expected the assertion odone == odone2 in the last "
-                          "call, got exit %d after %d answers: %s" % (rc1, n_ans, err1[-300:]), ops=ops))
-    else:
-        msg = "F35 witness: the model counts a chunk with odone != odone2 but the asserts-on build runs through (repaired? then the model must follow)"
-        if "F35" in known:
-            ctx.notes.append(msg)
-        fails.append(dict(kind="correspondence", what=msg, ops=ops))
+    ro1, rr1, _ = V.split_real(lines1)
+    aborted = bool(rc1) and ASSERT_F35 in err1
+    text = None
+    if aborted:
+        text = ("witness opsF35 (0.25 -> 6 at once -> slew to 1 over 800 frames, then one call of 1400 frames: up-switch, fade, down-switch "
+                "in one vr_process), call %d: %s" % (len(rr1), [l for l in err1.splitlines() if "Assertion" in l][-1].split(": ", 1)[-1][-100:]))
+    if info["mis"] is None:
+        if aborted:
+            return [text + "; the model (which re-aligns occupancy0 at an up-switch) counts no misaligned chunk"]
+        d1 = V.compare(ops, mo, mres, ro1, rr1)
+        if rc1 or d1:
+            fails.append(dict(kind="correspondence", what="F35 witness, asserts-on build: %s %s" % (err1[-200:], d1[1] if d1 else ""), ops=ops))
+        else:
+            ctx.count("f35_witness_aligned_on_real_code")
+        return []
+    n_before = sum(len(g) for g in mo[:info["mis"]])
+    if aborted and len(rr1) == n_before:
+        return [text]
+    fails.append(dict(kind="correspondence", what="F35 witness: the model counts a chunk with odone != odone2 in op %d but the asserts-on "
+                      "build %s" % (info["mis"], "ran through it" if not rc1 else "failed differently: " + err1[-300:]), ops=ops))
     return []
+
+
+def f35_family(rng):
+    """the structured family in which F35 was found: start low, jump at once to near the maximum (the engine climbs one octave
+    stage per 512-frame fade), a fast downward slew, then long calls (an up- and a down-switch inside one vr_process)"""
+    mx = [4.0, 8.0, 16.0, 11.5][rng.below(4)]
+    ops = ["create %.17g" % mx, "ratio %.17g 0" % (2.0 ** -rng.uniform(0, 4))]
+    ops.append("proc 3000 %d" % (50 + rng.below(300)))
+    ops.append("ratio %.17g 0" % (mx * 2.0 ** -rng.uniform(0, 1.5)))
+    for _ in range(1 + rng.below(3)):
+        ops.append("proc %d %d" % (rng.below(3000), 100 + rng.below(700)))
+    ops.append("ratio %.17g %d" % (2.0 ** -rng.uniform(0, 4), 300 + rng.below(900)))
+    for _ in range(4):
+        ops.append("proc %d %d" % (rng.below(3000), 300 + rng.below(1500)))
+    return mx, ops
 
 
 # ---------------------------------------------------------------------- F12: request-size schedules
@@ -794,7 +820,8 @@ def known_ids():
 def report(ctx, exe_dbg, fails, broken):
     """One VIOLATION per kind (shrunk); if only the proof side broke, a no-input violation naming it."""
     seen = set()
-    os.makedirs(os.path.join(common.VERIF, "corpus", PID), exist_ok=True)
+    corpus_out = os.path.join(common.OUTDIR, "corpus", PID)      # mutation / revert runs (VERIF_OUT) keep their inputs out of /verif
+    os.makedirs(corpus_out, exist_ok=True)
     for f in fails:
         if f["kind"] in seen:
             continue
@@ -818,9 +845,9 @@ def report(ctx, exe_dbg, fails, broken):
                       replay, no_input=False)
         if ops and ops[0].startswith("create") and (is_corr or f["kind"].startswith("oracle:")):
             h = hashlib.sha256("\n".join(shrunk).encode()).hexdigest()[:10]
-            existing = glob.glob(os.path.join(common.VERIF, "corpus", PID, "*.json"))
+            existing = glob.glob(os.path.join(corpus_out, "*.json"))
             if len(existing) < 20:
-                json.dump(dict(kind=f["kind"], ops=shrunk), open(os.path.join(common.VERIF, "corpus", PID, h + ".json"), "w"))
+                json.dump(dict(kind=f["kind"], ops=shrunk), open(os.path.join(corpus_out, h + ".json"), "w"))
     if broken and not fails:
         ctx.violation("the proof side no longer checks and the falsifier found no failing input: " + "; ".join(broken)[:1500],
                       dict(broken=broken), no_input=True)
@@ -893,7 +920,7 @@ def run(ctx):
     for fid, hits, text in (("F13", f13_hits, "soxr_set_io_ratio(r, 0) during an unfinished slew (or before its snap) does not cancel it: "),
                             ("F12", f12_hits, "VR output depends on the request sizes when a stage switch is taken: "),
                             ("F14", f14_hits, "UBSan: left shift of a negative value at a stage switch (vr32.c lshift): "),
-                            ("F35", f35_hits, "the two cross-faded streams get out of step where the model counts it (vr32.c assert(odone == odone2)): ")):
+                            ("F35", f35_hits, "the two cross-faded streams get out of step (vr32.c assert(odone == odone2)): ")):
         if not hits:
             continue
         ctx.cov.setdefault("known_reproductions", {})[fid] = len(hits)
@@ -909,8 +936,8 @@ def run(ctx):
                        "sine-fit residual <= -80 dB and |count - N/ratio| <= 2 at constant ratios; ramp read-back slope == ratio, "
                        "monotone during slews, second differences bounded; constant-rate engines return the error string and their "
                        "output is unchanged; two request-size schedules bit-identical unless a stage switch is taken (F12); the asserts-on "
-                       "build aborts on odone == odone2 exactly in the calls where the model counts a misaligned chunk (F35) and the "
-                       "NDEBUG build equals the model through them; ASan/UBSan (C99 shift rules) clean")
+                       "build never aborts on odone == odone2 unless the model counts a misaligned chunk in that call (F35: none since "
+                       "the repair); ASan/UBSan (C99 shift rules) clean")
     ctx.assume(
         "the three floating-point expressions of vr32.c that feed integers are evaluated by the driver in IEEE binary64 (Lean Float, "
         "the platform's log()); in the theorems they are parameters (Num); at every ratio the driver also checks them against the exact "
@@ -920,11 +947,10 @@ def run(ctx):
         "ratio trajectories stay in [2^-6, max]; slew_len < 2^31; the first ratio is set with slew_len 0 as examples/5-variable-rate.c "
         "prescribes (a first request with slew_len > 0 is dropped by vr_set_io_ratio and the engine starts at the declared maximum: "
         "counted as first_request_with_slew_dropped, modelled as written)",
-        "trajectories in which the model predicts a fade misalignment (F35) are run in the asserts-on build only up to that call (which "
-        "must abort on the assertion); the NDEBUG build is compared through it, up to the point where a clock would be more than 8 "
-        "samples before its read pointer (never seen)",
+        "should the model predict a fade misalignment (nmis > 0: it did before the repair of F35, never since) the asserts-on build is "
+        "run only up to that call, which must abort on the assertion, and the NDEBUG build is compared through it",
         "frame-count theorem is about the interpolator clock; the count of the whole engine (FIFO alignment, flush) is Goal_frames_full_engine, "
         "measured by the falsifier",
         "request_settles / slew_progression carry nsw = 0 (no stage switch: across a switch step is rescaled, stage_switch_*_continuous) "
-        "and nmis = 0 (cross-faded streams in step: false in general, F35)")
+        "and nmis = 0 (cross-faded streams in step: proved for down-switch fades, Goal_fade_alignment otherwise; false before the repair of F35)")
     report(ctx, exe_dbg, fails, broken)
